@@ -42,6 +42,7 @@ func paramsCmd(args []string) int {
 	out := fs.String("out", "params.ndjson", "records")
 	tok := fs.Int("tok", 0, "tokenizer sweep: every string up to this length through the real parser")
 	bin := fs.String("bin", "", "the real binary: drive the scenarios through start -p / restart / retry of the command layer")
+	dying := fs.Int("dying", 0, "with -bin: so many restarts against an agent that dies while answering the status query")
 	fs.Parse(args)
 	log.SetOutput(io.Discard)
 	if *tok > 0 {
@@ -95,6 +96,14 @@ func paramsCmd(args []string) int {
 	so := os.Stdout
 	devnull, _ := os.OpenFile(os.DevNull, os.O_WRONLY, 0)
 	os.Stdout = devnull
+	nrec := len(scs)
+	if *bin != "" && *dying > 0 {
+		// restart against an agent that dies while answering (cut at several places of the answer)
+		for i := 0; i < *dying; i++ {
+			enc.Encode(rig.RunRestartDyingAgent(self, *bin, i+1, []float64{0.5, 0.02, 0.97, 0.25}[i%4], base))
+			nrec++
+		}
+	}
 	for _, sc := range scs {
 		if *bin != "" {
 			enc.Encode(rig.RunParamsCLI(self, *bin, sc, base))
@@ -103,6 +112,6 @@ func paramsCmd(args []string) int {
 		}
 	}
 	os.Stdout = so
-	fmt.Printf("{\"records\": %d}\n", len(scs))
+	fmt.Printf("{\"records\": %d}\n", nrec)
 	return 0
 }
